@@ -834,6 +834,9 @@ class ManifestRecursiveLoader:
                     continue
 
                 fullpath = os.path.join(relpath, e.path)
+                if fullpath == mpath:
+                    # (an entry for the Manifest itself, see below)
+                    continue
                 if not force and fullpath not in self.updated_manifests:
                     assert fullpath not in renamed_manifests
                     continue
@@ -855,6 +858,12 @@ class ManifestRecursiveLoader:
 
             # we've apparently modified this Manifest, so store it now
             if force or mpath in self.updated_manifests:
+                # a Manifest can not carry its own checksums:
+                # a MANIFEST entry for itself could never be right once
+                # it is rewritten (and would dangle once it is renamed)
+                m.entries = [e for e in m.entries
+                             if e.tag != 'MANIFEST'
+                             or os.path.join(relpath, e.path) != mpath]
                 unc_size = self.save_manifest(mpath, sort=sort)
                 # let's see if we want to recompress it
                 if compress_watermark is not None:
